@@ -27,6 +27,7 @@ import (
 	"github.com/lavanet/lava/v5/protocol/rpcprovider"
 	"github.com/lavanet/lava/v5/utils"
 	"github.com/lavanet/lava/v5/utils/verifshim/events/clock"
+	vcontext "github.com/lavanet/lava/v5/utils/verifshim/events/context"
 
 	"verifmc/engine/ev"
 	"verifmc/engine/events"
@@ -104,7 +105,8 @@ func makeSystem(sc scenario) events.System {
 	s.rl = rpcprovider.NewResourceLimiter(true, fmt.Sprintf("verif-c41-%d", counter), cuThreshold, heavyMax, sc.queueSize, normalMax)
 	for i, k := range sc.kinds {
 		c := &caller{idx: i, heavy: k == 'H', gate: make(chan error, 1), bodyErr: fmt.Errorf("body error of request %d", i)}
-		c.ctx, c.cancelFn = context.WithCancel(context.Background())
+		// the caller's context cancels the limiter's WithTimeout child synchronously, as a standard context does
+		c.ctx, c.cancelFn = vcontext.WithCancelSync(context.Background())
 		s.callers = append(s.callers, c)
 	}
 	return s
@@ -149,10 +151,42 @@ func (s *system) Enabled() []events.Event {
 			}
 		}
 	}
+	// the queue worker is parked right after it obtained the permit for a queued request (preemption point inserted
+	// by the overlay): resuming it is an event like any other, so cancellations and timeouts can land in between
+	if len(clock.Parked()) > 0 {
+		out = append(out, events.Event{Name: "resume(worker)"})
+	}
+	// two environment events that land before any goroutine of the limiter runs again: a running request finishes
+	// while the caller of a request that waits in the heavy queue gives up (both orders). Delivered back to back, they
+	// reach the interleavings in which the queue worker obtains the permit and finds its request's context done.
+	for _, c := range s.callers {
+		if !c.running {
+			continue
+		}
+		for _, d := range s.callers {
+			if d == c || !d.heavy || !d.arrived || d.started > 0 || d.returned || d.canceled {
+				continue
+			}
+			out = append(out, events.Event{Name: fmt.Sprintf("cancel(%d)+finish(%d,ok)", d.idx, c.idx), Deviation: true})
+			out = append(out, events.Event{Name: fmt.Sprintf("finish(%d,ok)+cancel(%d)", c.idx, d.idx), Deviation: true})
+		}
+	}
 	return out
 }
 
 func (s *system) Deliver(name string) {
+	if k := strings.Index(name, ")+"); k >= 0 {
+		s.Deliver(name[:k+1])
+		s.Deliver(name[k+2:])
+		return
+	}
+	if name == "resume(worker)" {
+		if p := clock.Parked(); len(p) > 0 {
+			clock.Resume(p[0])
+			return
+		}
+		panic("c41: no parked worker")
+	}
 	var i int
 	var arg string
 	open := strings.IndexByte(name, '(')
@@ -265,7 +299,7 @@ func (s *system) Check(report events.Reporter) {
 				report("not-run-but-caller-got-success", fmt.Sprintf("request %d was never executed but its caller got nil", c.idx))
 			}
 		case c.startSeq > c.returnSeq:
-			report("ran-after-caller-was-answered", fmt.Sprintf("request %d started executing after its caller had already been answered with %s", c.idx, errStr(c.ret)))
+			report("ran-after-caller-was-answered:"+classify(c.ret), fmt.Sprintf("request %d started executing after its caller had already been answered with %s", c.idx, errStr(c.ret)))
 		case !c.finished || c.returnSeq < c.finishSeq:
 			// the caller was answered while its request was still executing: it cannot hold that run's result
 			key := "ran-but-caller-got-other-answer"
@@ -362,10 +396,14 @@ func (s *system) Close() {
 	for _, c := range s.callers {
 		c.cancelFn()
 	}
-	for round := 0; round < 2*len(s.callers)+2; round++ {
+	for round := 0; round < 3*len(s.callers)+3; round++ {
 		events.Quiesce()
 		s.mu.Lock()
 		n := 0
+		for _, t := range clock.Parked() {
+			clock.Resume(t)
+			n++
+		}
 		for _, c := range s.callers {
 			if c.running {
 				select {
@@ -443,7 +481,7 @@ func run(r *ev.Run) {
 	r.Set("engine", "events")
 	r.Set("bound", "real ResourceLimiter with heavy max 1, normal max 1; scenarios "+strings.Join(desc, ", ")+
 		"; every order of the enabled events arrive(i), finish(i,ok), finish(i,err), cancel(i) (also before arrival), timer(i) (virtual 30 s queue deadline of caller i), "+
-		"callers of the same kind arrive in index order (symmetry); no bound on cancellations/timeouts; one event per quiescent point")
+		"callers of the same kind arrive in index order (symmetry); no bound on cancellations/timeouts; one event per quiescent point, plus the pairs (finish of a running request, cancel of a queued heavy one) delivered back to back in both orders")
 	r.Assume("event granularity: one environment event is delivered at a time and the limiter's goroutines run to quiescence (all blocked) before the next one; the interleaving of the limiter's internal goroutines between two quiescent points is the deterministic one of GOMAXPROCS=1 without asynchronous preemption (guarded by 5x replay of every candidate and by comparing the enabled-event sets on every re-executed prefix)")
 	r.Assume("resource_limiter.go is compiled from a derived overlay copy in which only the imports \"time\" and \"context\" are rewritten to virtual-clock shims (tools/overlaygen_events.py); context.WithTimeout's deadline fires only when the explorer chooses timer(i); golang.org/x/sync/semaphore and the rest of the package are unmodified")
 	r.Assume("a caller that was answered while the queue worker is still executing its request is counted as 'did not get that run's result' (separate keys for a queue-timeout answer and for the caller's own cancellation)")
